@@ -9,8 +9,16 @@ if ! go build -o bin/vcheck ./cmd/vcheck 2>bin/build.log; then
   cat bin/build.log >&2
   exit 2
 fi
+build_inst() {
+  # instrumented binary for C01: clock reads and map ranges of /repo's consensus paths go through verifhook
+  rm -rf .work/overlay && mkdir -p .work/overlay
+  go run ./cmd/instrument /repo "$PWD/.work/overlay" "$PWD/hook/hook.go.txt" >bin/instrument.log 2>&1 &&
+  go build -overlay .work/overlay/overlay.json -o bin/vcheck-inst ./cmd/vcheck 2>>bin/build.log
+}
 case "$1" in
-  --build-only) exit 0 ;;
+  --build-only) build_inst || { echo "HARNESS-ERROR: cannot build the instrumented checker:" >&2; cat bin/instrument.log bin/build.log >&2; exit 2; }; exit 0 ;;
+  C01) build_inst || { echo "HARNESS-ERROR: cannot build the instrumented checker:" >&2; cat bin/instrument.log bin/build.log >&2; exit 2; }
+       exec bin/vcheck run "$1" "${2:-${VERIF_TIER:-quick}}" ;;
   replay) exec bin/vcheck replay "$2" ;;
   *) exec bin/vcheck run "$1" "${2:-${VERIF_TIER:-quick}}" ;;
 esac
